@@ -1,5 +1,6 @@
 import NbioVerif.Model.Rfc6455
 import NbioVerif.Model.WsMask
+import NbioVerif.Model.WsTrunc
 import NbioVerif.DrvCommon
 /-! wsdrv: runs the websocket model on the annotated ops of `hws exec` (see harness/cmd/hws/main.go) -/
 open Ws Drv
@@ -142,6 +143,10 @@ partial def loop (h : IO.FS.Stream) (d : DS) : IO Unit := do
     IO.println "ok"; loop h { mode := "rt", g, gc := { g with isClient := true } }
   | "C" :: "mask" :: _ => IO.println "ok"; loop h { mode := "mask" }
   | "C" :: "utf8" :: _ => IO.println "ok"; loop h { mode := "utf8" }
+  | "C" :: "trunc" :: _ => IO.println "ok"; loop h { mode := "trunc" }
+  | "T" :: sp :: _ =>
+    if d.mode != "trunc" then IO.println "bad-op"; loop h d else
+    IO.println s!"R {short (twWrites [] ((sp.splitOn ",").map bytesOf)).1}"; loop h d
   | "U" :: sp :: _ =>
     if d.mode != "utf8" then IO.println "bad-op"; loop h d else
     IO.println s!"R {if utf8Valid (bytesOf sp) then 1 else 0}"; loop h d
